@@ -264,6 +264,29 @@ Example C06_notifies_only_changes_example :
   filter (fun e => match e with EvFn _ => true | _ => false end) (w_trace (run fn true 8 (ops ++ [BevEvalAll 0]))) = [EvFn 2; EvFn 9; EvFn 2; EvFn 9].
 Proof. split; [vm_compute; repeat split; reflexivity|]. split; [vm_compute; reflexivity|]. split; vm_compute; reflexivity. Qed.
 
+(* a second evaluateAll right after the first leaves the WHOLE world as it is - values, trees, connection tables, the record of observer
+   calls and of user-function calls (every registered binding updates a property; duplicate-free dependency order) *)
+Theorem C06_second_evaluate_all_changes_nothing :
+  forall fn rtl ev fuel w e st w1,
+    PropSimLazy.LSC ev w -> PropSimLazy.LCOH fn w -> lookup (w_bevs w) e = Some ev -> nth_error (w_evps w) ev = Some st ->
+    NoDup (PropSimLazy.regs_of w (ep_registry st)) -> PropSimLazy.lchain w (PropSimLazy.regs_of w (ep_registry st)) ->
+    (forall rb, In rb (ep_registry st) -> PropSimLazy.lz w (snd rb) <> None) ->
+    step1 fn rtl (S fuel) w (BevEvalAll e) = (w1, None) ->
+    step1 fn rtl (S fuel) w1 (BevEvalAll e) = (w1, None).
+Proof. exact PropNotify.lazy_second_evalall_identity. Qed.
+Print Assumptions C06_second_evaluate_all_changes_nothing.
+
+(* non-vacuity: the chain of C06_premises_example after an assignment: the first evaluateAll changes both bound properties, the second
+   one returns the very same world *)
+Example C06_second_evaluate_all_example :
+  let fn := fun (f : nat) (l : list Z) => Some (fold_right Z.add (Z.of_nat f) l) in
+  let ops := [PNew 0 1%Z; BevNew 0; PBind 1 (EOp1 1 (EProp 0)) (MEvaluator 0); PBind 2 (EOp1 2 (EProp 1)) (MEvaluator 0); PSet 0 10%Z WSet] in
+  let w := run fn true 8 ops in
+  let w1 := step fn true 8 w (BevEvalAll 0) in
+  (exists st, nth_error (w_evps w) 1 = Some st /\ forallb (fun rb => match PropSimLazy.lz w (snd rb) with Some _ => true | None => false end) (ep_registry st) = true) /\
+  values w 2 = Some 4%Z /\ values w1 2 = Some 13%Z /\ step1 fn true 8 w1 (BevEvalAll 0) = (w1, None).
+Proof. split; [eexists; split; vm_compute; reflexivity|]. split; [vm_compute; reflexivity|]. split; vm_compute; reflexivity. Qed.
+
 (* ---- "Bindings that were reset, replaced or destroyed are never evaluated again", for EVERY history (coq/PropReg.v) ---- *)
 (* all three end in ~Binding = destroy_binding, which leaves the binding dead ... *)
 Theorem C06_destroyed_binding_is_dead :
